@@ -67,7 +67,7 @@ pub fn gen_c02(rng: &mut Rng, tier: Tier) -> Case {
     if rng.chance(1, 5) {
         // transient-fault family: one read or seek of the source fails; every later probe runs on
         // a reset cursor and must be answered exactly
-        env.faults = vec![crate::env::FaultSpec { k: rng.log_uniform(8, 2000), err: rng.below(9) as u8, sticky: false, merge_nth: 0 }];
+        env.faults = vec![crate::env::FaultSpec { k: rng.log_uniform(8, 2000), err: rng.below(9) as u8, sticky: false, merge_nth: 0, panic: false }];
     }
     Case::Cursor(CursorCase { spec, env, steps, fresh_each: true, v1: false, sparse_hole })
 }
@@ -333,7 +333,7 @@ pub fn gen_c03(rng: &mut Rng, tier: Tier) -> Case {
     let mut env = gen::gen_env(rng, true);
     if rng.chance(1, 4) {
         // transient-fault family: one read or seek of the source fails somewhere in the history
-        env.faults = vec![crate::env::FaultSpec { k: rng.log_uniform(8, 3000), err: rng.below(9) as u8, sticky: false, merge_nth: 0 }];
+        env.faults = vec![crate::env::FaultSpec { k: rng.log_uniform(8, 3000), err: rng.below(9) as u8, sticky: false, merge_nth: 0, panic: false }];
     }
     let sparse_hole = crate::props_file::gen_hole(rng, 15);
     Case::Cursor(CursorCase { spec, env, steps, fresh_each: false, v1: false, sparse_hole })
@@ -494,6 +494,51 @@ fn gen_c16_deep(rng: &mut Rng, tier: Tier) -> Case {
     Case::Cursor(CursorCase { spec: FileSpec { knobs, entries: Entries::Literal(ents) }, env: crate::env::EnvPlan::whole(), steps, fresh_each: rng.chance(1, 4), v1: false, sparse_hole: None })
 }
 
+/// Clones of positioned cursors whose original then leaves the block (or is reset) before the clone
+/// is looked at: whatever a clone hands back must come from memory the clone itself keeps alive.
+pub fn gen_clone_alias(rng: &mut Rng, tier: Tier) -> Case {
+    let Case::Cursor(mut c) = gen_c16_deep(rng, tier) else { unreachable!() };
+    c.fresh_each = false;
+    let n = c.spec.entries.len() as u64;
+    let key_of = |x: u64, c: &CursorCase| -> Vec<u8> {
+        let ents = c.spec.entries.materialize();
+        ents[(x % ents.len().max(1) as u64) as usize].0.clone()
+    };
+    let mut steps = Vec::new();
+    let mut ncur = 1u8;
+    for _ in 0..rng.urange(1, 4) {
+        let a = rng.below(ncur as u64) as u8;
+        let k = key_of(rng.below(n.max(1)), &c);
+        steps.push(CursorStep { cur: a, op: match rng.below(4) { 0 => Op::First, 1 => Op::Last, 2 => Op::Ge(B(k)), _ => Op::Le(B(k)) } });
+        if ncur >= 4 {
+            break;
+        }
+        steps.push(CursorStep { cur: a, op: Op::CloneFrom });
+        let b = ncur;
+        ncur += 1;
+        // the original goes away
+        let k2 = key_of(rng.below(n.max(1)), &c);
+        steps.push(CursorStep {
+            cur: a,
+            op: match rng.below(6) {
+                0 => Op::Last,
+                1 => Op::First,
+                2 => Op::NextN(rng.urange(3, 40) as u32),
+                3 => Op::PrevN(rng.urange(3, 40) as u32),
+                4 => Op::Reset,
+                _ => Op::Ge(B(k2)),
+            },
+        });
+        // the clone is looked at before it moves, then moves
+        steps.push(CursorStep { cur: b, op: Op::Current });
+        steps.push(CursorStep { cur: b, op: if rng.chance(1, 2) { Op::Next } else { Op::Prev } });
+        steps.push(CursorStep { cur: b, op: Op::Current });
+        steps.push(CursorStep { cur: a, op: Op::Current });
+    }
+    c.steps = steps;
+    Case::Cursor(c)
+}
+
 pub fn gen_c16(rng: &mut Rng, tier: Tier) -> Case {
     if rng.chance(1, 8) {
         return gen_c16_families(rng);
@@ -569,7 +614,7 @@ pub fn gen_c16(rng: &mut Rng, tier: Tier) -> Case {
     let mut env = gen::gen_env(rng, true);
     if rng.chance(1, 5) {
         // a failing operation is still one operation: its I/O is bounded like any other
-        env.faults = vec![crate::env::FaultSpec { k: rng.log_uniform(8, 4000), err: rng.below(9) as u8, sticky: false, merge_nth: 0 }];
+        env.faults = vec![crate::env::FaultSpec { k: rng.log_uniform(8, 4000), err: rng.below(9) as u8, sticky: false, merge_nth: 0, panic: false }];
     }
     Case::Cursor(CursorCase { spec, env, steps, fresh_each: false, v1: false, sparse_hole: None })
 }
